@@ -479,5 +479,46 @@ def incomplete_test(ctx, R3, dv):
                         ctx.instance(R3, "Codec.decode[incomplete-frame test]", ok,
                                      f"`{short(x)}` compares the frame length with the whole buffer, leading garbage included: after garbage a frame that "
                                      "is still a few bytes short looks complete, is parsed, fails and is consumed - lost when its last bytes arrive", loc(x))
+                        # ... and the length it expects is exactly the frame's: BeginString field + BodyLength field + body + "10=xxx" + the three
+                        # SOHs that close them (len(f[0]) + len(f[1]) + BodyLength + 9): one byte less and a frame still short of its last
+                        # byte(s) passes as complete, fails its CheckSum and is consumed; one more and a complete frame waits for the next one.
+                        # Judged only where both sides are sums of recognisable terms.
+                        from sa.decoder import linear_forms
+                        a_orig, b_orig = (x.left, x.comparators[0]) if a is l else (x.comparators[0], x.left)
+                        strict = isinstance(x.ops[0], (ast.Gt, ast.Lt))
+                        natural = isinstance(x.ops[0], (ast.Gt, ast.GtE)) == (a is l)
+                        fa_, fb_ = linear_forms(dv, a_orig, n.id), linear_forms(dv, b_orig, n.id)
+                        if natural and fa_ and fb_ and len(fa_) * len(fb_) <= 16:
+                            for ta, ca in fa_:
+                                for tb, cb in fb_:
+                                    tot = dict(ta)
+                                    for k_, v_ in tb.items():
+                                        tot[k_] = tot.get(k_, 0) - v_
+                                    tot = {k_: v_ for k_, v_ in tot.items() if v_}
+                                    cst = ca - cb
+                                    fields, rest_ok, nbody = {}, True, 0
+                                    for k_, v_ in tot.items():
+                                        m_ = re.fullmatch(r"len\((\w+)\[(\d+)\]\)", k_)
+                                        if m_ and v_ == 1:
+                                            fields[int(m_.group(2))] = fields.get(int(m_.group(2)), 0) + 1
+                                        elif m_:
+                                            fields[int(m_.group(2))] = v_
+                                        elif re.fullmatch(r"int\(\w+\)", k_):
+                                            nbody += v_
+                                        elif k_ == f"len({dv.buf})":
+                                            rest_ok = rest_ok and v_ == -1
+                                        elif re.fullmatch(r"\w+@\d+", k_) or re.fullmatch(r"\w+", k_):
+                                            rest_ok = rest_ok and v_ == 1  # the frame start, checked by the instance above
+                                        else:
+                                            rest_ok = None
+                                            break
+                                    if rest_ok is None or not rest_ok or f"len({dv.buf})" not in tot:
+                                        continue
+                                    want = 9 if strict else 8
+                                    good = fields == {0: 1, 1: 1} and nbody == 1 and cst == want
+                                    ctx.instance(R3, "Codec.decode[expected frame length = both header fields + BodyLength + trailer + 3 SOH]", good,
+                                                 f"`{short(x)}` expects len(field 0..1) x {fields} + {nbody} x BodyLength + {cst} bytes from the frame start where the frame has "
+                                                 f"len(f[0]) + len(f[1]) + BodyLength + {want}: the decoder takes a frame that is still short for complete (it fails its "
+                                                 "CheckSum and is consumed - lost when the rest arrives) or keeps waiting behind a complete one", loc(x))
     if not found:
         raise AnalysisError("decode: the incomplete-frame comparison (BodyLength-derived length vs buffer length) was not found")
